@@ -94,6 +94,8 @@ def run(ctx):
     # the routes that do not go through hash_v2 (hash_with_dxdy, hash_v1): the base-cell step's float tie-breaks
     from rules import c03_border_offsets
     c03_border_offsets.tiebreaks(ctx, crate, clause="P5-tie-breaks-independent-of-depth")
+    from rules.c03_vertices import decomposition_chain
+    decomposition_chain(ctx, crate)
     ctx.not_decided("the lemma's float side conditions (zero, negative zero, sub-normal sums, exponent overflow at depth 0) are argued on paper; containment (C01) is float numerics")
     ctx.assume("adding k<<52 to the bit pattern of a positive normal double multiplies it by 2^k exactly (IEEE-754), absent exponent overflow/underflow")
     from rules import controls as _controls
